@@ -189,11 +189,16 @@ pub fn replay_in_child(ctx: &WorkerCtx, ops: &[Op], u: &Universe, net: &str) -> 
 
 fn compare_with_child_twin(ctx: &WorkerCtx, rep: &mut WorkerReport, ops: Vec<Op>, u: Universe, net: &str, case_seed: u64) {
     let hd = digest_ops(&ops);
-    // child process twin
+    // child process twin; the configuration accepts two spellings of main net ("bitcoin" and "mainnet",
+    // same chain id, same reported network): every other main-net twin is configured through the alias
+    let child_net = if net == "bitcoin" && ((ctx.shard / 3) % 2 == 1 || case_seed % 2 == 1) { "mainnet" } else { net };
+    if child_net != net {
+        rep.set_add("coverage", "twin-configured-through-network-alias".to_string());
+    }
     let work = rpc::fresh_dir("C02");
     let opsfile = work.join("ops.json");
     let resfile = work.join("twin.json");
-    std::fs::write(&opsfile, serde_json::to_string(&json!({"ops": ops, "universe": universe_json(&u), "network": net})).unwrap()).unwrap();
+    std::fs::write(&opsfile, serde_json::to_string(&json!({"ops": ops, "universe": universe_json(&u), "network": child_net})).unwrap()).unwrap();
     let exe = std::env::current_exe().unwrap();
     let child = Command::new(exe)
         .args(["worker", "C02", &ctx.tier, &ctx.seed.to_string(), &ctx.shard.to_string(), &ctx.nshards.to_string(), work.join("unused-report.json").to_str().unwrap(), "twin", opsfile.to_str().unwrap(), resfile.to_str().unwrap()])
@@ -485,7 +490,8 @@ pub fn worker(ctx: &WorkerCtx) -> WorkerReport {
         // child twin: replay and write the result
         let v: Value = serde_json::from_str(&std::fs::read_to_string(&ctx.extra[1]).expect("ops file")).expect("ops json");
         let net = v["network"].as_str().unwrap_or("regtest").to_string();
-        let traces = NETS.iter().find(|(n, _)| *n == net).map(|(_, t)| *t).unwrap_or(true);
+        let canonical = if net == "mainnet" { "bitcoin" } else { net.as_str() };
+        let traces = NETS.iter().find(|(n, _)| *n == canonical).map(|(_, t)| *t).unwrap_or(true);
         crate::setup_env(&net, traces);
         let ops: Vec<Op> = serde_json::from_value(v["ops"].clone()).expect("ops");
         let u = universe_from(&v["universe"]);
@@ -500,6 +506,13 @@ pub fn worker(ctx: &WorkerCtx) -> WorkerReport {
         return rep;
     }
     let (net, traces) = net_for_shard(ctx.shard);
+    if ctx.shard == 3 {
+        // the pinned main-net digests must also hold for an instance configured as "mainnet"
+        crate::setup_env("mainnet", NETS[2].1);
+        golden_check(ctx, &mut rep, "bitcoin");
+        rep.set_add("golden_networks", "bitcoin(configured as mainnet)");
+        return rep;
+    }
     crate::setup_env(net, traces);
     if ctx.shard < 3 {
         golden_check(ctx, &mut rep, net);
